@@ -113,7 +113,17 @@ func genCase(t *rapid.T) Case {
 				repl(co)
 			}
 			if len(r) >= 4 && (x.Kind == model.Polygon || x.Kind == model.MultiPolygon) {
-				copy(r[len(r)-1], r[0])
+				// closed the way WKT demands (x, y and, where the layout has one, z); an M
+				// - and, for GeoJSON, which has no closure rule, a third or fourth ordinate -
+				// stays the closing vertex's own half of the time
+				n := len(r[0])
+				if rapid.Bool().Draw(t, "ownclosing") {
+					n = 2
+					if c.Format == "wkt" && x.Lay().ZIndex() >= 0 {
+						n = 3
+					}
+				}
+				copy(r[len(r)-1][:n], r[0][:n])
 			}
 		}
 		for _, r := range x.C2 {
